@@ -502,9 +502,7 @@ def Db.stashPush (d : Db) : Res × Db :=
   let all := changedTables h staged1                                   -- stashedTableSets
   let added := all.filter (fun n => !(has h n))
   -- MoveTablesFromHeadToWorking (staged := head first)
-  let working1 := all.foldl (fun acc n => match get h n with
-    | some tb => putTable acc n tb
-    | none => del acc n) w.working
+  let working1 := moveTables all h w.working
   (.ok, { (d.setWs ⟨working1, h, none⟩) with stashes := ⟨staged1, d.headId, added⟩ :: d.stashes })
 
 /-- does the merge need a row-level three-way merge of some table (all three versions differ)?
